@@ -402,8 +402,7 @@ def _horizon(o):
     if o.get("pred") is None:
         return t0, t0
     items = o["pred"]["states"] if o["pred"]["k"] == "traj" else o["pred"]["occ"]
-    last = items[-1]["t"]
-    return t0, last["iv"][1] if isinstance(last, dict) else last
+    return t0, max(i["t"]["iv"][1] if isinstance(i["t"], dict) else i["t"] for i in items)
 
 
 # ------------------------------------------------------------------------------------- reference occupancies
